@@ -331,8 +331,24 @@ def is_ascii(c):
     st = CUR
     k = c.get_id()
     if k not in st.ascii:
-        st.ascii[k] = not xfork(c >= 128, 'nonascii')
+        src = st.notes.get(('src', k))
+        if src is not None and src in st.ascii:
+            # character derived (clean-up table, case mapping) from a character whose status is already decided on this
+            # path: the exotic event has been paid for by the source; an ASCII source always yields an ASCII image
+            if st.ascii[src]:
+                st.add(c < 128)
+                st.ascii[k] = True
+            else:
+                st.ascii[k] = not fork(c >= 128, prefer=False)
+        else:
+            st.ascii[k] = not xfork(c >= 128, 'nonascii')
     return st.ascii[k]
+
+
+def derived_char(new, src):
+    """record that symbolic character `new` is the image of `src` under a character map"""
+    if not isinstance(src, int) and not isinstance(new, int):
+        CUR.notes[('src', new.get_id())] = src.get_id()
 
 
 _MEMO = {}
@@ -543,6 +559,7 @@ class SStr:
                 continue
             r = fresh_int('u')
             CUR.add(r == case_term(which, c))
+            derived_char(r, c)
             out.append(r)
         return mk(out)
 
@@ -1288,6 +1305,7 @@ def dict_get(d, k, default=None):
                 return k
             r = fresh_int('m')
             CUR.add(r == val)
+            derived_char(r, c)
             return SStr([r])
         for kk in d:
             if isinstance(kk, str) and len(kk) == len(k) and fork(k._eqz(kk)):
@@ -1319,14 +1337,22 @@ class SPattern:
     def _run(self, s, mode):
         if not isinstance(s, SStr):
             return getattr(self.real, mode)(s)
-        if self.flags & real_re.IGNORECASE or self.tree.state.flags & real_re.IGNORECASE:
-            raise Unsupported('regex IGNORECASE')
         chars = s.chars
         n = len(chars)
         starts = [0] if mode in ('match', 'fullmatch') else list(range(n + 1))
-        ckey = tuple(c if isinstance(c, int) else ('z', c.get_id()) for c in chars)
+        ids = [None if isinstance(c, int) else c.get_id() for c in chars]
+
+        def akey():
+            # the conditions depend on the per-path ASCII status of each character (ASCII-first tables)
+            return tuple(c if i is None else (i, CUR.ascii.get(i)) for c, i in zip(chars, ids))
         for st in starts:
-            alts = memo(('re', id(self), ckey, st), (self, chars), lambda: list(matches(list(self.tree), chars, st, {}, self.tree.state.flags)))
+            k0 = ('re', id(self), akey(), st)
+            e = _MEMO.get(k0)
+            if e is None:
+                alts = list(matches(list(self.tree), chars, st, {}, self.tree.state.flags))
+                _MEMO[('re', id(self), akey(), st)] = ((self, chars), alts)
+            else:
+                alts = e[1]
             for cond, end, groups in alts:
                 if mode == 'fullmatch':
                     cond = z3.And(cond, z3.BoolVal(end == n))
@@ -1350,25 +1376,25 @@ class SPattern:
             return self.real.sub(repl, s, count)
         if not isinstance(repl, str) or chr(92) in repl:
             raise Unsupported('re.sub with callable / back-reference replacement on symbolic')
-        if self.real.match('') is not None or self.flags & real_re.IGNORECASE:
-            raise Unsupported('re.sub with possibly-empty match on symbolic')
         chars = s.chars
         n = len(chars)
         out = []
         pos = 0
         done = 0
         flags = self.tree.state.flags
-        while pos < n:
+        while pos <= n:
             hit = None
             if not count or done < count:
                 for cond, end, groups in matches(list(self.tree), chars, pos, {}, flags):
-                    if end == pos:
-                        raise Unsupported('re.sub empty match')
                     if fork(cond):
                         hit = end
                         break
-            if hit is None:
-                out.append(chars[pos])
+            if hit is None or hit == pos:
+                if hit is not None:
+                    out.extend(ord(c) for c in repl)      # empty match: replacement, then the character is copied
+                    done += 1
+                if pos < n:
+                    out.append(chars[pos])
                 pos += 1
             else:
                 out.extend(ord(c) for c in repl)
@@ -1412,13 +1438,49 @@ class SMatch:
         return self._start
 
 
-def class_cond(c, items, negate=False):
+_CASED = None
+_IC_CACHE = {}
+
+
+def ic_ranges(lo, hi):
+    """code points matching the class [lo-hi] under re.IGNORECASE: the interpreter's own `re` is the oracle,
+    evaluated on every cased code point (only those can match a character other than themselves)"""
+    global _CASED
+    key = (lo, hi)
+    if key not in _IC_CACHE:
+        if _CASED is None:
+            _CASED = [cp for cp in range(0x110000) if (lambda ch: ch.lower() != ch or ch.upper() != ch or ch.casefold() != ch or ch.title() != ch)(chr(cp))]
+        pat = real_re.compile('[%s-%s]' % (real_re.escape(chr(lo)), real_re.escape(chr(hi))), real_re.IGNORECASE)
+        hits = set(range(lo, hi + 1))
+        for cp in _CASED:
+            if pat.fullmatch(chr(cp)):
+                hits.add(cp)
+        out = []
+        for cp in sorted(hits):
+            if out and out[-1][1] == cp - 1:
+                out[-1][1] = cp
+            else:
+                out.append([cp, cp])
+        _IC_CACHE[key] = [tuple(r) for r in out]
+    return _IC_CACHE[key]
+
+
+def lit_cond(c, av, flags):
+    if flags & real_re.IGNORECASE:
+        return in_ranges(c, ic_ranges(av, av))
+    return ceq(c, av)
+
+
+def class_cond(c, items, negate=False, flags=0):
     alts = []
     for op, av in items:
         if op is sre_c.LITERAL:
-            alts.append(ceq(c, av))
+            alts.append(lit_cond(c, av, flags))
         elif op is sre_c.RANGE:
             lo, hi = av
+            if flags & real_re.IGNORECASE:
+                alts.append(in_ranges(c, ic_ranges(lo, hi)))
+                continue
             alts.append(z3.And(c >= lo, c <= hi) if not isinstance(c, int) else z3.BoolVal(lo <= c <= hi))
         elif op is sre_c.CATEGORY:
             alts.append(category_cond(c, av))
@@ -1456,13 +1518,13 @@ def matches(items, chars, pos, groups, flags):
     n = len(chars)
     if op is sre_c.LITERAL:
         if pos < n:
-            c = ceq(chars[pos], av)
+            c = lit_cond(chars[pos], av, flags)
             if not z3.is_false(c):
                 for cond, e, g in matches(rest, chars, pos + 1, groups, flags):
                     yield z3.And(c, cond), e, g
     elif op is sre_c.NOT_LITERAL:
         if pos < n:
-            c = z3.Not(ceq(chars[pos], av))
+            c = z3.Not(lit_cond(chars[pos], av, flags))
             for cond, e, g in matches(rest, chars, pos + 1, groups, flags):
                 yield z3.And(c, cond), e, g
     elif op is sre_c.ANY:
@@ -1472,7 +1534,7 @@ def matches(items, chars, pos, groups, flags):
                 yield z3.And(c, cond), e, g
     elif op is sre_c.IN:
         if pos < n:
-            c = class_cond(chars[pos], av)
+            c = class_cond(chars[pos], av, flags=flags)
             for cond, e, g in matches(rest, chars, pos + 1, groups, flags):
                 yield z3.And(c, cond), e, g
     elif op is sre_c.AT:
@@ -1497,7 +1559,7 @@ def matches(items, chars, pos, groups, flags):
             raise Unsupported('regex AT %s' % av)
     elif op is sre_c.SUBPATTERN:
         gid, add_flags, del_flags, sub = av
-        for cond, e, g in matches(list(sub), chars, pos, groups, flags):
+        for cond, e, g in matches(list(sub), chars, pos, groups, (flags | add_flags) & ~del_flags):
             g2 = dict(g)
             if gid is not None:
                 g2[gid] = (pos, e)
